@@ -97,10 +97,14 @@ def run(ctx, ndocs, nassign, lfs, prefix, with_model=True, judge=('C02', 'C08'))
                      ('S insert_after 1 - ' + ' '.join(f'+{vid[id(t)]}:{enc_text(t.raw_text)}' for t in toks), 'ok ' + dump() + ' removed=')]
             cands = [t for t in toks if domain_assignments(rng, t)]
             bad = None
+            edited = []
             for _ in range(nassign):
                 if not cands:
                     break
-                t = rng.choice(cands)
+                # sequences on one token matter (multi-line -> multi-line with another line count ...): re-pick an edited token often
+                t = rng.choice(edited) if edited and rng.random() < 0.4 else rng.choice(cands)
+                if not any(t is x for x in edited):
+                    edited.append(t)
                 attr, val = rng.choice(domain_assignments(rng, t))
                 before_text = ''.join(x.raw_text for x in toks)
                 k = vid[id(t)] - 1   # position by identity (token == compares text)
@@ -138,6 +142,9 @@ def run(ctx, ndocs, nassign, lfs, prefix, with_model=True, judge=('C02', 'C08'))
                         bad = ('C08:index', f'get_index(token {i}) = {store.get_index(x)}')
                         break
                     acc += x.raw_text
+                if bad and bad[0].split(':')[0] not in judge:
+                    ctx.count('not-judged-here:' + bad[0])   # another property's matter: keep going, the model diff still sees the step
+                    bad = None
                 if bad:
                     break
                 lines.append((f'S update 1 {vid[id(t)]} {enc_text(new)}', 'ok ' + dump()))
